@@ -33,6 +33,8 @@ ASSUMPTIONS = [
 ]
 
 IMPL_ENV = {"SV_TIMEOUT_MS": "20000"}
+import os
+NOSTR = os.environ.get("C24_NOSTR") == "1"     # development knob: no string cells at all
 
 ATOMS = [0, 1, "[]", "a", "b", "c"]
 ACODE = {0: 0, 1: 1, "[]": 10, "a": 11, "b": 12, "c": 13}
@@ -198,9 +200,9 @@ def render_build(nodes, rng, style):
     aliases = []
     keep = set(style.get("roots", []))
 
-    def ref(j, stack, in_head):
+    def ref(j, stack, in_head, lhead=False):
         nd = nodes[j]
-        if nd[0] == "a" and rng.random() < 0.6:
+        if nd[0] == "a" and rng.random() < 0.6 and not (NOSTR and lhead):
             return pl_atom(nd[1])
         if nd[0] in ("s", "l") and indeg[j] == 1 and len(stack) < 3 and j not in stack and j not in keep \
                 and rng.random() < 0.3:
@@ -218,7 +220,7 @@ def render_build(nodes, rng, style):
         if nd[0] == "s":
             return "%s(%s)" % (nd[1], ",".join(ref(c, stack, in_head) for c in nd[2]))
         if nd[0] == "l":
-            return "[%s|%s]" % (ref(nd[1], stack, in_head), ref(nd[2], stack, in_head))
+            return "[%s|%s]" % (ref(nd[1], stack, in_head, True), ref(nd[2], stack, in_head))
         if nd[0] == "q":
             return '"%s"' % "".join(nd[1])
         raise ValueError(nd)
@@ -252,9 +254,10 @@ def render_case(cid, nodes, a, b, k, rng, kind):
     prog = []
     build = list(goals)
     if head:
-        hv = [v for v, _ in head]
+        import re
+        hv = sorted(set(re.findall(r"N\d+", " ".join(v + " " + t for v, t in head))), key=lambda x: int(x[1:]))
         prog.append("c24h_%s(%s)." % (cid, ",".join(hv + [t for _, t in head])))
-        call = "c24h_%s(%s)" % (cid, ",".join(hv + hv))
+        call = "c24h_%s(%s)" % (cid, ",".join(hv + [v for v, _ in head]))
         pos = rng.randrange(len(build) + 1)
         build.insert(pos, call)
     tab = "[%s]" % ",".join("N%d-%d" % (i, 1000 + i) for i in range(n) if nodes[i][0] == "v")
@@ -301,6 +304,7 @@ def norm_case(c, cid=None):
 
 def gen_graph(rng, n, p_var=0.2, p_atom=0.2, strings=True, acyclic=False):
     nodes = []
+    strings = strings and not NOSTR
     for i in range(n):
         r = rng.random()
         if r < p_var:
@@ -470,10 +474,14 @@ def parse_R(r):
 def features(c):
     nodes = c["nodes"]
     mg = model_graph(nodes)
-    reach = set(ref_reach(mg, c["a"])) | set(ref_reach(mg, c["b"]))
-    below = any(nodes[i][0] in ("p", "q") and i in reach and i not in (c["a"], c["b"]) for i in range(len(nodes)))
-    # a string cell is "below the root" also when the root itself is a string that is reached again
-    atroot = any(nodes[i][0] in ("p", "q") for i in (c["a"], c["b"]))
+    def stringish(i):
+        # partial/complete strings, and list cells whose head is a one-char atom (the compiler and
+        # unification may represent those as partial strings, too)
+        nd = nodes[i]
+        return nd[0] in ("p", "q") or (nd[0] == "l" and nodes[nd[1]][0] == "a" and nodes[nd[1]][1] in ("a", "b", "c"))
+    n = len(nodes)
+    below = any(stringish(i) for r in (c["a"], c["b"]) for i in ref_reach(mg, r) if i < n and i != r)
+    atroot = any(stringish(i) for i in (c["a"], c["b"]))
     return {"string_below_root": "yes" if below else "no", "string_at_root": "yes" if atroot else "no",
             "cyclic": "no" if ref_acyclic(mg, c["a"]) and ref_acyclic(mg, c["b"]) else "yes",
             "build": c["kind"]}
@@ -545,10 +553,11 @@ def run_with_retry(cases):
     # machine before it is judged (a panic discards the machine, so later lines of the same worker
     # may have been affected)
     for c in flaky[:400]:
-        lines = ["R\t%s_r" % c["id"]] + c["impl"]
-        impl2 = core.run_impl(lines, env=IMPL_ENV)
-        for l in c["impl"]:
-            impl[core.line_id(l)] = impl2.get(core.line_id(l), "missing")
+        qs = [l for l in c["impl"] if l.startswith("Q\t") and not l.startswith("Q\t%s_u" % c["id"])]
+        setup = [l for l in c["impl"] if l not in qs]
+        for q in qs:
+            impl2 = core.run_impl(["R\t%s_r" % c["id"]] + setup + [q], env=IMPL_ENV)
+            impl[core.line_id(q)] = impl2.get(core.line_id(q), "missing")
     return impl, model, retried
 
 
